@@ -4,6 +4,8 @@
 // file is not part of the package; with it on it adds nothing but the package clause.
 package query
 
+//@ invariant query_error_singletons: errCursorClosed != nil
+
 // ---------------------------------------------------------------------------------------------
 // B2: worker partition (C12, C13, C03)
 
@@ -60,3 +62,163 @@ package query
 //@   loop 1 invariant forall(k, 0, $i, list[k] == c.view.RecordSet[c.index][k][0])
 //@   loop 1 modifies list[*]
 //@   modifies c.index, c.fetched
+
+//@ func (*Cursor).Close
+//@   property C16
+//@   safety
+//@   requires c != nil && c.mtx != nil
+//@   ensures [pseudo-error] c.isPseudo ==> result != nil && c.view == old(c.view) && c.index == old(c.index)
+//@   ensures [closed] !c.isPseudo ==> result == nil && c.view == nil && !c.fetched
+//@   modifies c.view, c.index, c.fetched
+
+//@ func (*Cursor).IsOpen
+//@   property C16
+//@   safety
+//@   requires c != nil
+//@   ensures [agrees] (result == ternary.TRUE <==> c.view != nil) && (result == ternary.FALSE <==> c.view == nil)
+//@   modifies nothing
+
+//@ func (*Cursor).IsInRange
+//@   property C16
+//@   safety
+//@   requires c != nil
+//@   ensures [closed-error] c.view == nil ==> result1 != nil && result0 == ternary.FALSE
+//@   ensures [not-fetched] c.view != nil && !c.fetched ==> result1 == nil && result0 == ternary.UNKNOWN
+//@   ensures [agrees] c.view != nil && c.fetched ==> result1 == nil && (result0 == ternary.TRUE <==> (0 <= c.index && c.index < len(c.view.RecordSet))) && (result0 == ternary.TRUE || result0 == ternary.FALSE)
+//@   modifies nothing
+
+//@ func (*Cursor).Count
+//@   property C16
+//@   safety
+//@   requires c != nil
+//@   ensures [closed-error] c.view == nil ==> result1 != nil && result0 == 0
+//@   ensures [agrees] c.view != nil ==> result1 == nil && result0 == len(c.view.RecordSet)
+//@   modifies nothing
+
+//@ func (*Cursor).Pointer
+//@   property C16
+//@   safety
+//@   requires c != nil
+//@   ensures [agrees] result1 == nil && result0 == c.index
+//@   modifies nothing
+
+// ---------------------------------------------------------------------------------------------
+// Expression evaluation is outside the verified subset. Assumed frame: it never writes the storage of a
+// View (its fields, its record / cell slices, its sort keys) nor an existing SortValue. The value it
+// returned last is kept in a ghost variable so that callers' postconditions can refer to it.
+//@ ghost var lastEval value.Primary
+//@ func Evaluate
+//@   trusted assumed frame of expression evaluation (no write to View / Record / Cell / SortValue storage)
+//@   ensures result0 == lastEval
+//@   ensures result1 == nil ==> result0 != nil
+//@   modifies * except F:query.View. E:query.Record# E:query.Cell# E:value.Primary# E:*query.SortValue# E:query.SortValues# F:query.SortValue. E:int# F:parser.
+
+// ---------------------------------------------------------------------------------------------
+// C07: OFFSET / LIMIT / sort keys
+
+//@ spec func keyBytesEqual(a *SortValue, b *SortValue) bool
+//@ spec def svEq(a *SortValue, b *SortValue) bool =
+//@     ite(a.SerializedKey != nil, keyBytesEqual(a, b),
+//@     ite(a.Type == IntegerType, (b.Type == IntegerType || b.Type == BooleanType) && a.Integer == b.Integer,
+//@     ite(a.Type == FloatType, b.Type == FloatType && ((isNaN(a.Float) && isNaN(b.Float)) || a.Float == b.Float),
+//@     ite(a.Type == DatetimeType, b.Type == DatetimeType && a.Datetime == b.Datetime,
+//@     ite(a.Type == BooleanType, (b.Type == BooleanType || b.Type == IntegerType) && a.Integer == b.Integer,
+//@     ite(a.Type == StringType, b.Type == StringType && a.String == b.String,
+//@     ite(a.Type == NullType, b.Type == NullType, false)))))))
+//@ spec opaque svsEq(a SortValues, b SortValues) bool = b != nil && forall(q, 0, len(a), svEq(a[q], b[q]))
+
+//@ func (*SortValue).EquivalentTo
+//@   property C07 C04
+//@   requires v != nil && compareValue != nil
+//@   requires v.SerializedKey == nil
+//@   ensures [definition] result == svEq(v, compareValue)
+//@   modifies nothing
+
+//@ func (SortValues).EquivalentTo
+//@   property C07 C04
+//@   safety
+//@   reveal svsEq
+//@   requires compareValues != nil ==> len(compareValues) >= len(values)
+//@   requires forall(q, 0, len(values), values[q] != nil && values[q].SerializedKey == nil)
+//@   requires compareValues != nil ==> forall(q, 0, len(values), compareValues[q] != nil)
+//@   ensures [definition] result == svsEq(values, compareValues)
+//@   loop 1 invariant 0 <= $i && $i <= len(values) && compareValues != nil
+//@   loop 1 invariant forall(q, 0, $i, svEq(values[q], compareValues[q]))
+//@   loop 1 modifies nothing
+//@   modifies nothing
+
+//@ spec def viewWf(view *View) bool = view != nil && view.offset >= 0 && len(view.RecordSet) + view.offset < 9007199254740992 &&
+//@     (view.sortValuesInEachRecord != nil ==> len(view.sortValuesInEachRecord) >= len(view.RecordSet) &&
+//@        forall(r, 0, len(view.sortValuesInEachRecord), view.sortValuesInEachRecord[r] != nil &&
+//@           len(view.sortValuesInEachRecord[r]) == len(view.sortValuesInEachRecord[0]) &&
+//@           forall(q, 0, len(view.sortValuesInEachRecord[r]), view.sortValuesInEachRecord[r][q] != nil && view.sortValuesInEachRecord[r][q].SerializedKey == nil)))
+
+// the integer reading of the evaluated OFFSET / LIMIT operand (value.ToInteger run symbolically on the ghost)
+//@ spec def evalIsInt(p value.Primary) bool = value.intLooseOk(p)
+//@ spec def evalInt(p value.Primary) int = value.intLooseOf(p)
+//@ spec def evalIsFloat(p value.Primary) bool = value.floatOk(p)
+//@ spec def evalFloat(p value.Primary) float64 = value.floatOf(p)
+
+//@ func (*View).Offset
+//@   property C07 C03 C19
+//@   safety
+//@   requires view != nil
+//@   ensures [error-leaves-rows] result != nil ==> view.RecordSet == old(view.RecordSet)
+//@   ensures [invalid-number-is-error] result == nil ==> evalIsInt(lastEval)
+//@   ensures [offset-value] result == nil ==> view.offset == max(0, evalInt(lastEval))
+//@   ensures [len] result == nil ==> len(view.RecordSet) == max(0, old(len(view.RecordSet)) - view.offset)
+//@   ensures [rows-shifted] result == nil ==> forall(k, 0, len(view.RecordSet), view.RecordSet[k] == old(view.RecordSet[k + now(view.offset)]))
+//@   ensures [sort-keys-follow-rows] result == nil && old(view.sortValuesInEachRecord) != nil && old(len(view.sortValuesInEachRecord)) == old(len(view.RecordSet)) && len(view.RecordSet) > 0 ==>
+//@       view.sortValuesInEachRecord != nil && len(view.sortValuesInEachRecord) == len(view.RecordSet) &&
+//@       forall(k, 0, len(view.RecordSet), view.sortValuesInEachRecord[k] == old(view.sortValuesInEachRecord[k + now(view.offset)]))
+//@   loop 1 invariant 0 <= $i && $i <= len(newSet) && view.offset >= 0 && view.offset < old(len(view.RecordSet))
+//@   loop 1 invariant len(newSet) == old(len(view.RecordSet)) - view.offset && newSet == old(view.RecordSet)[view.offset:]
+//@   loop 1 invariant view.RecordSet == old(view.RecordSet)[:len(newSet)]
+//@   loop 1 invariant forall(k, 0, $i, view.RecordSet[k] == old(view.RecordSet[k + now(view.offset)]))
+//@   loop 1 invariant forall(k, $i, old(len(view.RecordSet)), old(view.RecordSet)[k] == old(view.RecordSet[k]))
+//@   loop 1 invariant evalIsInt(lastEval) && view.offset == max(0, evalInt(lastEval))
+//@   loop 1 modifies view.RecordSet[*]
+//@   modifies * except F:query.View. E:query.Record# E:query.Cell# E:value.Primary# E:*query.SortValue# E:query.SortValues# F:query.SortValue.
+//@   modifies view.offset, view.RecordSet, view.RecordSet[*], view.sortValuesInEachRecord
+
+// number of rows LIMIT asks for before WITH TIES is applied (N rows in the view, off rows dropped by OFFSET)
+//@ spec def limitBase(clause parser.LimitClause, p value.Primary, N int, off int) int =
+//@     ite(clause.Percentage(),
+//@         ite(evalFloat(p) > 100.0, N, ite(evalFloat(p) < 0.0, 0, int(math.Ceil(float64(N + off) * evalFloat(p) / 100.0)))),
+//@         max(0, evalInt(p)))
+//@ spec def limitOperandOk(clause parser.LimitClause, p value.Primary) bool = ite(clause.Percentage(), evalIsFloat(p) && !isNaN(evalFloat(p)), evalIsInt(p))
+
+// machine arithmetic of LIMIT n PERCENT treated as given: for a row count below 2^53 and a percentage in [0,100]
+// the float expression the code evaluates is a non-negative integer
+//@ axiom limit_percent_nonneg: forallv(n, int, forallv(p, float64, 0 <= n && n < 9007199254740992 && p >= 0.0 && p <= 100.0 ==>
+//@     int(math.Ceil(float64(n) * p / 100.0)) >= 0))
+
+//@ func (*View).Limit
+//@   property C07 C19
+//@   safety
+//@   requires viewWf(view)
+//@   ensures [error-leaves-rows] result != nil ==> view.RecordSet == old(view.RecordSet)
+//@   ensures [invalid-operand-is-error] result == nil ==> limitOperandOk(clause, lastEval)
+//@   ensures [prefix] view.RecordSet == old(view.RecordSet)[:len(view.RecordSet)] && len(view.RecordSet) <= old(len(view.RecordSet))
+//@   ensures [count] result == nil && !(clause.WithTies() && view.sortValuesInEachRecord != nil) ==>
+//@       len(view.RecordSet) == min(old(len(view.RecordSet)), limitBase(clause, lastEval, old(len(view.RecordSet)), view.offset))
+//@   ensures [percent-over-100-keeps-all] result == nil && clause.Percentage() && evalFloat(lastEval) > 100.0 ==> len(view.RecordSet) == old(len(view.RecordSet))
+//@   ensures [ties-at-least] result == nil && clause.WithTies() && view.sortValuesInEachRecord != nil ==>
+//@       len(view.RecordSet) >= min(old(len(view.RecordSet)), limitBase(clause, lastEval, old(len(view.RecordSet)), view.offset))
+//@   ensures [ties-none-for-zero] result == nil && limitBase(clause, lastEval, old(len(view.RecordSet)), view.offset) == 0 ==> len(view.RecordSet) == 0
+//@   ensures [ties-equal] result == nil && clause.WithTies() && view.sortValuesInEachRecord != nil &&
+//@       0 < limitBase(clause, lastEval, old(len(view.RecordSet)), view.offset) && limitBase(clause, lastEval, old(len(view.RecordSet)), view.offset) < old(len(view.RecordSet)) ==>
+//@       forall(j, limitBase(clause, lastEval, old(len(view.RecordSet)), view.offset), len(view.RecordSet),
+//@           svsEq(view.sortValuesInEachRecord[limitBase(clause, lastEval, old(len(view.RecordSet)), view.offset) - 1], view.sortValuesInEachRecord[j]))
+//@   ensures [ties-maximal] result == nil && clause.WithTies() && view.sortValuesInEachRecord != nil &&
+//@       0 < limitBase(clause, lastEval, old(len(view.RecordSet)), view.offset) && len(view.RecordSet) < old(len(view.RecordSet)) ==>
+//@       !svsEq(view.sortValuesInEachRecord[limitBase(clause, lastEval, old(len(view.RecordSet)), view.offset) - 1], view.sortValuesInEachRecord[len(view.RecordSet)])
+//@   loop 1 invariant view.RecordSet == old(view.RecordSet) && viewWf(view) && view.offset == old(view.offset)
+//@   loop 1 invariant limitOperandOk(clause, lastEval) && clause.WithTies() && view.sortValuesInEachRecord != nil
+//@   loop 1 invariant 0 < limitBase(clause, lastEval, len(view.RecordSet), view.offset) && limitBase(clause, lastEval, len(view.RecordSet), view.offset) <= limit && limit <= len(view.RecordSet)
+//@   loop 1 invariant limitBase(clause, lastEval, len(view.RecordSet), view.offset) < len(view.RecordSet)
+//@   loop 1 invariant bottomSortValues == view.sortValuesInEachRecord[limitBase(clause, lastEval, len(view.RecordSet), view.offset) - 1]
+//@   loop 1 invariant forall(j, limitBase(clause, lastEval, len(view.RecordSet), view.offset), limit, svsEq(bottomSortValues, view.sortValuesInEachRecord[j]))
+//@   loop 1 modifies nothing
+//@   modifies * except F:query.View. E:query.Record# E:query.Cell# E:value.Primary# E:*query.SortValue# E:query.SortValues# F:query.SortValue.
+//@   modifies view.RecordSet
